@@ -193,13 +193,14 @@ def run_seq(sh, s, d, case):
                 st.store(fo, z64, objs.cell_record('fi'), '', t)
             mid = []
             bad = None
+            equal_to_inflight = False
             for _ in range(rnd.choice([1, 2, 4])):
                 o = st.new_oid()
                 sh.count('new_oid_calls_checked')
                 if o == fo:
-                    # the id of a record that is only stored in the still uncommitted transaction: it identifies nothing
-                    # yet, the statement gives no verdict (FileStorage never does this, DemoStorage can)
-                    sh.count('allocation_equal_to_inflight_foreign_id_no_verdict')
+                    # the id of a record that is only stored in the still uncommitted transaction: it identifies nothing yet -
+                    # the verdict falls when that transaction commits (below); none if it is aborted
+                    equal_to_inflight = True
                     continue
                 if o in issued or o in present:
                     bad = o
@@ -211,6 +212,11 @@ def run_seq(sh, s, d, case):
                 st.tpc_vote(t)
                 tidf = st.tpc_finish(t)
                 present[fo] = tidf
+                sh.count('inflight_foreign_transactions_committed')
+                if equal_to_inflight:
+                    sh.violation('c20:%s:id-of-a-record-in-flight-issued-and-that-record-then-committed' % kind,
+                                 {'id': cand, 'trace': trace[-12:]}, case)
+                    return None
             else:
                 if rnd.random() < 0.5:
                     st.tpc_vote(t)
